@@ -34,7 +34,7 @@ LEVEL_TEXT = (
 LEVEL_NOTE = "Trusted: Python float modulo (exact on the lattice), fractions for the width/representability decision off-lattice."
 TECHNIQUE = "runtime postcondition monitor with an exact modular-arithmetic oracle plus verde.inside applied to the returned values; exhaustive 5-degree lattice + seeded off-lattice and rejection workload"
 FLOORS = {
-    "quick": {"eval:region": 12000, "eval:longitudes": 12000, "eval:inside": 12000, "eval:rejection": 300, "distinct_nontrivial": 2500, "eval:forms": 40, "class:longitude_subset_calls": 8000, "class:mixed_dtype_coordinates": 40, "class:point_spelling_python": 150, "class:point_spelling_zero_d": 150, "class:invalid_value_among_undefined": 15, "class:concurrent_calls": 1500},
+    "quick": {"eval:region": 12000, "eval:longitudes": 12000, "eval:inside": 12000, "eval:rejection": 300, "distinct_nontrivial": 2500, "eval:forms": 40, "class:longitude_subset_calls": 8000, "class:mixed_dtype_coordinates": 40, "class:point_spelling_python": 150, "class:point_spelling_zero_d": 150, "class:invalid_value_among_undefined": 15, "class:concurrent_calls": 1000},
     "thorough": {"eval:region": 40000, "eval:longitudes": 40000, "eval:inside": 40000, "eval:rejection": 3000, "distinct_nontrivial": 20000},
 }
 JOBS = {"quick": 1, "thorough": 16}
@@ -366,12 +366,15 @@ def run_case(run, tap, stream, index, rng):
                     vd.longitude_continuity(None, (w, e, -30.0, 30.0))
                     vd.longitude_continuity((lons, lats), [w, e, -45.0, 45.0])
             jobs.append(job)
-        for res, exc in _core.run_threads(jobs, rounds=60):
+        rounds = 60 if index % 2 else 20
+        results = _core.run_threads(jobs, rounds=rounds, yield_probability=0.25 if index % 2 == 0 else 0.0, seed=index)
+        run.count("yields_injected", getattr(_core.run_threads, "yields_injected", 0) - run.counters.get("yields_injected", 0))
+        for res, exc in results:
             if isinstance(exc, TimeoutError):
                 run.note_inconclusive("threads: %r" % (exc,))
             elif exc is not None:
                 run.violation("threads", "longitude_continuity raised %r when called concurrently from %d threads" % (exc, nthreads), {}, key="threads-raised")
-        run.count("class:concurrent_calls", len(jobs) * 60 * 8)
+        run.count("class:concurrent_calls", len(jobs) * rounds * 8)
     elif stream == "forms":
         only = None
         for _ in range(4):
